@@ -141,7 +141,8 @@ structure Req where
   fi : Attr
   /-- `pkcs7.Parse(msg.P7.Content)` succeeds -/
   innerOk : Bool
-  /-- decryption with the CA's decrypter succeeds -/
+  /-- decryption with the decrypter `selectDecrypter` selects succeeds (`false` when the selection
+      itself fails; see `withSelectedDecrypter`) -/
   decOk : Bool
   env : Env
   /-- `ParseChallengePassword(envelope)` ("" when the attribute is absent) -/
@@ -172,12 +173,41 @@ inductive HookRes where
   | allow | deny | error
   deriving Repr, DecidableEq
 
+/-- One HTTP exchange with a webhook endpoint, as `Webhook.DoWithContext` classifies it:
+    2xx/3xx with a JSON body saying allow / not allow, a status ≥ 400 below 500, a status ≥ 500,
+    or a body that is not JSON. -/
+inductive Attempt where
+  | allow | deny | s4xx | s5xx | badJson
+  deriving Repr, DecidableEq
+
+/-- `Webhook.DoWithContext`: one retry (after a pause) when the first exchange ends in a 5xx;
+    any status ≥ 400 that is not retried and any undecodable body is an error.
+    Result and number of HTTP requests made. -/
+def doWebhook (first second : Attempt) : HookRes × Nat :=
+  match first with
+  | .allow => (.allow, 1)
+  | .deny => (.deny, 1)
+  | .s4xx => (.error, 1)
+  | .badJson => (.error, 1)
+  | .s5xx =>
+    match second with
+    | .allow => (.allow, 2)
+    | .deny => (.deny, 2)
+    | _ => (.error, 2)
+
 structure Hook where
   kind : HookKind
   ct : CertType
-  /-- what the endpoint answers for this request's challenge -/
-  res : HookRes
+  /-- what the endpoint answers to the first request for this challenge, and to a second one -/
+  first : Attempt
+  second : Attempt
   deriving Repr, DecidableEq
+
+/-- what the webhook call yields for this request's challenge -/
+def Hook.res (h : Hook) : HookRes := (doWebhook h.first h.second).1
+
+/-- HTTP requests the webhook call makes (1, or 2 after a 5xx) -/
+def Hook.tries (h : Hook) : Nat := (doWebhook h.first h.second).2
 
 /-- The provisioner as configured: `ChallengePassword` and `Options.Webhooks` (every kind, in order). -/
 structure Config where
@@ -282,6 +312,14 @@ def runHooks : List Hook → Nat → Nat → Option Nat × Nat
     | .error => (none, calls + 1)
     | .allow => runHooks hs (allows + 1) (calls + 1)
     | .deny => runHooks hs allows (calls + 1)
+
+/-- HTTP requests `Validate` makes: those of every webhook consulted (up to and including the
+    first that fails). -/
+def hooksHttp : List Hook → Nat
+  | [] => 0
+  | h :: hs => match h.res with
+    | .error => h.tries
+    | _ => h.tries + hooksHttp hs
 
 /-- `(*SCEP).ValidateChallenge`: (accepted, webhook calls made). -/
 def validateChallenge (c : Config) (challenge : Str) : Bool × Nat :=
@@ -434,6 +472,281 @@ def pkiOperationP (F : Facts) (p : Prov) (q : Req) : M Result :=
             | (false, n) => .val { out := .reply failureReply, hookCalls := n, stored := 0, notifyCalls := 0 }
             | (true, n) => .val (signCSR q n (runNotify p.notif))
           else .val (signCSR q 0 (runNotify p.notif))
+
+/-! ### the HTTP layer: routes, provisioner lookup, operations, key selection, GetCACert / GetCACaps
+
+  scep/api/api.go `route`, `lookupProvisioner`, `Get`, `Post`, `decodeRequest`, `GetCACert`,
+  `GetCACaps`, `writeResponse`/`fail`; scep/authority.go `selectDecrypter`, `selectSigner`,
+  `GetCACertificates`, `GetCACaps`; ca/ca.go mounts `scepAPI.Route` under "/scep" on the TLS mux and on
+  the insecure mux, both behind chi's `middleware.GetHead`. -/
+
+/-- a certificate with (possibly) its private key operation, as the selection switches see it:
+    is the certificate non-nil, is the decrypter / signer non-nil -/
+structure KeyPair where
+  cert : Bool
+  key : Bool
+  deriving Repr, DecidableEq
+
+inductive Which where
+  | prov   -- the provisioner's own decrypter / signer
+  | dflt   -- the authority's (the CA intermediate)
+  deriving Repr, DecidableEq
+
+/-- `selectDecrypter` and `selectSigner` (the same two switches): the provisioner's pair when both
+    halves are there, an error when exactly one half is, otherwise the default pair unless exactly one
+    of its halves is missing. -/
+def selectPair (prov dflt : KeyPair) : Option Which :=
+  if prov.cert && prov.key then some .prov
+  else if prov.cert != prov.key then none
+  else if dflt.cert != dflt.key then none
+  else some .dflt
+
+/-- What the handlers read of the SCEP authority and of the provisioner besides the challenge. -/
+structure Server where
+  /-- `GetDecrypter()` / `GetSigner()`: one certificate, one key for both -/
+  provPair : KeyPair
+  /-- `decrypterCertificate`, `defaultDecrypter` -/
+  dfltDecrypter : KeyPair
+  /-- `signerCertificate`, `defaultSigner` -/
+  dfltSigner : KeyPair
+  nInter : Nat
+  nRoots : Nat
+  excludeIntermediate : Bool
+  includeRoot : Bool
+  /-- the provisioner's `Capabilities` -/
+  caps : List Str
+  deriving Repr, DecidableEq
+
+inductive CertTag where
+  | provDecrypter
+  | inter (i : Nat)
+  | root (i : Nat)
+  deriving Repr, DecidableEq
+
+/-- `(*Authority).GetCACertificates` -/
+def caCertificates (S : Server) : List CertTag :=
+  let c0 : List CertTag := if S.provPair.cert then [.provDecrypter] else []
+  let c1 := if !S.excludeIntermediate || c0.isEmpty then c0 ++ (List.range S.nInter).map .inter else c0
+  if S.includeRoot then c1 ++ (List.range S.nRoots).map .root else c1
+
+/-- `defaultCapabilities` -/
+def defaultCapabilities : List Str :=
+  [s "Renewal", s "SHA-1", s "SHA-256", s "AES", s "DES3", s "SCEPStandard", s "POSTPKIOperation"]
+
+/-- `(*Authority).GetCACaps` -/
+def caCaps (S : Server) : List Str := if S.caps.isEmpty then defaultCapabilities else S.caps
+
+/-- the certificate a key pair choice stands for, as `GetCACert` names it (the default decrypter
+    certificate is the first intermediate: `decrypterCertificate: opts.SignerCert`) -/
+def tagOf : Which → CertTag
+  | .prov => .provDecrypter
+  | .dflt => .inter 0
+
+inductive Meth where
+  | get | post | head | other
+  deriving Repr, DecidableEq
+
+/-- the path below the mount point: nothing, "/{name}", "/{name}/…" -/
+inductive PathShape where
+  | root | name | nameRest
+  deriving Repr, DecidableEq
+
+inductive HandlerId where
+  | get | post
+  deriving Repr, DecidableEq
+
+/-- one `r.MethodFunc(method, pattern, lookupProvisioner(handler))` of `route` -/
+structure RouteEntry where
+  meth : Meth
+  /-- `true`: "/{provisionerName}/*", `false`: "/{provisionerName}" -/
+  star : Bool
+  handler : HandlerId
+  deriving Repr, DecidableEq
+
+/-- The route table of scep/api `route` (re-extracted from the source on every run). -/
+def routesAsCoded : List RouteEntry :=
+  [⟨.get, true, .get⟩, ⟨.get, false, .get⟩, ⟨.post, true, .post⟩, ⟨.post, false, .post⟩]
+
+/-- ca/ca.go `Init`: the routers on which `scepAPI.Route` is mounted and the prefix (the TLS server's
+    `mux` and the insecure server's `insecureMux`, same function, same prefix), and the routers that
+    use chi's `middleware.GetHead` (re-extracted from the source on every run). `serve` is the model
+    of either. -/
+def mountsAsCoded : List (String × String) := [("insecureMux", "/scep"), ("mux", "/scep")]
+def getHeadAsCoded : List String := ["insecureMux", "mux"]
+
+def RouteEntry.matchesPath (e : RouteEntry) : PathShape → Bool
+  | .root => false
+  | .name => !e.star
+  | .nameRest => e.star
+
+inductive Routed where
+  | notFound | notAllowed | handler (h : HandlerId)
+  deriving Repr, DecidableEq
+
+/-- chi with `middleware.GetHead`: a HEAD request for which no HEAD route exists is routed to the GET
+    route (the request keeps its method). -/
+def routeOf (R : List RouteEntry) (m : Meth) (p : PathShape) : Routed :=
+  let cands := R.filter (·.matchesPath p)
+  if cands.isEmpty then .notFound
+  else
+    let m' := if m = .head ∧ ¬ (cands.any (·.meth == .head)) then Meth.get else m
+    match cands.find? (·.meth == m') with
+    | some e => .handler e.handler
+    | none => .notAllowed
+
+inductive Lookup where
+  | scep        -- `LoadProvisionerByName` found a SCEP provisioner
+  | otherType   -- found a provisioner of another type
+  | missing
+  | badEscape   -- `url.PathUnescape` failed
+  deriving Repr, DecidableEq
+
+inductive Op where
+  | none | caCert | caCaps | pki | other
+  deriving Repr, DecidableEq
+
+structure HttpReq where
+  meth : Meth
+  path : PathShape
+  lookup : Lookup
+  /-- `url.ParseQuery(r.URL.RawQuery)` succeeds -/
+  queryOk : Bool
+  /-- the `operation` query parameter ("" = none) -/
+  op : Op
+  /-- the envelope decrypts under the provisioner's decrypter / under the authority's -/
+  decProv : Bool
+  decDflt : Bool
+  deriving Repr, DecidableEq
+
+inductive HttpOut where
+  | status404
+  | status405
+  | fail500
+  /-- GetCACert: `ra = true` for the degenerate PKCS#7 ("application/x-x509-ca-ra-cert") -/
+  | caCert (ra : Bool) (certs : List CertTag)
+  | caCaps (caps : List Str)
+  /-- a CertRep, and the key pair it is signed with -/
+  | pkiReply (r : Reply) (signer : Which)
+  deriving Repr, DecidableEq
+
+structure Served where
+  out : HttpOut
+  hookCalls : Nat
+  /-- HTTP requests made to challenge webhooks (retries included) -/
+  hookHttp : Nat
+  stored : Nat
+  notifyCalls : Nat
+  deriving Repr, DecidableEq
+
+def Served.plain (o : HttpOut) : Served := { out := o, hookCalls := 0, hookHttp := 0, stored := 0, notifyCalls := 0 }
+
+/-- `decodeRequest` followed by the operation switch of `Get` / `Post`: which operation runs
+    (`none`: the request is refused with 500). -/
+def dispatchOp (hd : HandlerId) (h : HttpReq) : Option Op :=
+  if !h.queryOk then none
+  else if h.op = .none then none
+  else match hd, h.meth with
+    | .get, .get =>
+      (match h.op with
+       | .caCert => some .caCert
+       | .caCaps => some .caCaps
+       | .pki => some .pki
+       | _ => none)
+    | .post, .post => (if h.op = .pki then some .pki else none)
+    | _, _ => none     -- `decodeRequest`: "unsupported method" (a HEAD request routed to `Get`)
+
+/-- The request as the PKI operation sees it once the decrypter is selected. -/
+def withSelectedDecrypter (S : Server) (h : HttpReq) (q : Req) : Req :=
+  { q with decOk := match selectPair S.provPair S.dfltDecrypter with
+      | some .prov => h.decProv
+      | some .dflt => h.decDflt
+      | none => false }
+
+/-- `GetCACert` + `writeResponse` -/
+def caCertAnswer (S : Server) : Served :=
+  if (caCertificates S).isEmpty then .plain .fail500
+  else .plain (.caCert (decide ((caCertificates S).length > 1)) (caCertificates S))
+
+/-- what the client receives for the outcome of the PKI operation: a CertRep needs `selectSigner`
+    to succeed (in `SignCSR` and in `CreateFailureResponse` alike) -/
+def pkiOut (S : Server) : Outcome → HttpOut
+  | .http500 => .fail500
+  | .reply rp =>
+    match selectPair S.provPair S.dfltSigner with
+    | none => .fail500
+    | some w => .pkiReply rp w
+
+def finishPki (S : Server) (p : Prov) (r : Result) : Served :=
+  { out := pkiOut S r.out, hookCalls := r.hookCalls,
+    hookHttp := if r.hookCalls = 0 then 0 else hooksHttp p.chal,
+    stored := r.stored, notifyCalls := r.notifyCalls }
+
+/-- One HTTP request to "/scep/…" (TLS or insecure server alike). -/
+def serve (F : Facts) (R : List RouteEntry) (S : Server) (p : Prov) (h : HttpReq) (q : Req) : M Served :=
+  match routeOf R h.meth h.path with
+  | .notFound => .val (.plain .status404)
+  | .notAllowed => .val (.plain .status405)
+  | .handler hd =>
+    if h.lookup ≠ .scep then .val (.plain .fail500)      -- `lookupProvisioner`
+    else match dispatchOp hd h with
+      | some .caCert => .val (caCertAnswer S)
+      | some .caCaps => .val (.plain (.caCaps (caCaps S)))
+      | some .pki =>
+        (match pkiOperationP F p (withSelectedDecrypter S h q) with
+         | .crash => .crash
+         | .val r => .val (finishPki S p r))
+      | _ => .val (.plain .fail500)
+
+/-- The answer or the database carries a certificate issued by this request. -/
+def Served.carriesCert (r : Served) : Bool :=
+  decide (r.stored > 0) ||
+  match r.out with
+  | .pkiReply rp _ => decide (rp.inner > 0) || decide (rp.outer > 0) || rp.status == .success
+  | _ => false
+
+/-! ### the names of the issued certificate (scep/authority.go `SignCSR`, default leaf template)
+
+  `SignCSR` collects `sans := DNSNames ++ EmailAddresses ++ IPAddresses ++ URIs` of the CSR (the common
+  name when that is empty), hands them to `x509util.CreateTemplateData`, which classifies each string
+  again (`CreateSANs`: an input here), and sets the subject from the CSR; the default leaf template
+  emits exactly `.Subject` and `.SANs`; `forceCNOption` fills an empty common name with the first DNS
+  name or refuses. -/
+
+inductive NameKind where
+  | dns | email | ip | uri
+  deriving Repr, DecidableEq
+
+structure CsrNames where
+  cn : Str
+  /-- the CSR's subject alternative names as `SignCSR` strings them, in its order, each with the
+      class `x509util.CreateSANs` gives the string -/
+  sans : List (NameKind × Str)
+  /-- the class `CreateSANs` gives the common name (used only when there is no SAN) -/
+  cnKind : NameKind
+  deriving Repr, DecidableEq
+
+structure Issued where
+  cn : Str
+  dns : List Str
+  emails : List Str
+  ips : List Str
+  uris : List Str
+  deriving Repr, DecidableEq
+
+/-- the SANs handed to the template -/
+def templateSans (n : CsrNames) : List (NameKind × Str) :=
+  if n.sans.isEmpty then [(n.cnKind, n.cn)] else n.sans
+
+def ofKind (k : NameKind) (l : List (NameKind × Str)) : List Str :=
+  (l.filter (·.1 == k)).map (·.2)
+
+/-- subject and names of the certificate (`none`: `forceCNOption` refuses, signing fails) -/
+def issue (forceCN : Bool) (n : CsrNames) : Option Issued :=
+  let t := templateSans n
+  let dns := ofKind .dns t
+  let cn? : Option Str :=
+    if forceCN && n.cn.isEmpty then dns.head? else some n.cn
+  cn?.map fun cn => { cn := cn, dns := dns, emails := ofKind .email t, ips := ofKind .ip t, uris := ofKind .uri t }
 
 /-! ### the property's vocabulary -/
 
